@@ -346,6 +346,14 @@ def _ensure_aggregate(ctx, agg_uuid):
 def _set_aggregates(context, resource_provider, provided_aggregates,
                     increment_generation=False):
     rp_id = resource_provider.id
+    # The provider was loaded before this transaction began. Without a
+    # generation to check (before microversion 1.19) nothing else notices
+    # that it has been deleted since, and its associations would be written
+    # for a provider that no longer exists.
+    if not context.session.execute(
+            sa.select(_RP_TBL.c.id).where(_RP_TBL.c.id == rp_id)).first():
+        raise exception.NotFound(
+            'No resource provider with uuid %s found' % resource_provider.uuid)
     # When aggregate uuids are persisted no validation is done
     # to ensure that they refer to something that has meaning
     # elsewhere. It is assumed that code which makes use of the
